@@ -137,4 +137,20 @@ PROPS = {
         level_text="Randomised exploration of log/compaction/cache histories with exact comparison against a model log.",
         level_note="Trusted: the fake reader's fidelity to dragonboat; the real dragonboat reader is exercised in C05.",
     ),
+    "C04": dict(
+        pkg="c04", level="fault_enumeration",
+        tests=[T("TestC04", Q(45, timeout=400, shrinktime="40s"), Q(250, timeout=1500, shards=16, shrinktime="120s"))],
+        rule="rapid generates histories of 1-10 steps (apply batches of 1-4 entries biased to multi-key commands: batches, txns, sequences, range deletes; Sync; clean reopen; install of a snapshot "
+             "produced by a donor replica that is 0-3 entries ahead, donor format drawn independently) for both recovery types. For each history a dry run counts the mutating file-system operations T "
+             "(create, write, sync, rename, remove, mkdir, link incl. pebble's own), then the history is re-executed once per crash point N in 0..T (all of them; thinned evenly above 400): from operation N on "
+             "syncs are ignored, after the step everything unsynced is dropped (pebble strict MemFS), the table is reopened and must report an index i >= the last completed Sync/Close, content/leader index == model "
+             "after exactly entries 1..i, and re-applying i+1.. must reach the model's final state; with depth 2 a second crash is injected during the re-apply/close phase. evaluations = (history, crash point) executions. "
+             "A crash point is non-trivial iff it falls inside the first Open, inside an install, or leaves a non-empty unsynced suffix to re-apply; distinct = sha256(case JSON + crash point).",
+        assumptions=["fault model = the property's: file data durable up to the file's last sync, directory entries up to the directory's last sync (pebble vfs strict MemFS); torn single writes and media errors are outside it",
+                     "an install (RecoverFromSnapshot) is not required to be durable by itself: until the next completed Sync either the pre-install or the installed prefix is accepted (dragonboat's contract)",
+                     "pebble's background flush/compaction run on real goroutines, so operation numbers can shift slightly between executions; every number is still a legal crash point"],
+        technique="property-based generation of histories + exhaustive fault (crash-point) enumeration per history, model-based prefix oracle",
+        level_text="Every file-system operation boundary of every generated history is used as a crash point (exhaustive per history), histories themselves are randomly explored.",
+        level_note="Trusted: pebble's strict MemFS as the durability model; the model's prefix states.",
+    ),
 }
